@@ -14,7 +14,8 @@ RULE = ("regular cubes with ascending/descending, unit/non-unit axes (incl. nega
         "every combination of start/stop/step present (bounds existing line numbers, steps multiples of the increment in axis "
         "order), iteration, len(), depth_slice/trace/header with int, negative int and slices of any non-zero step, "
         "attributes(field)[...], ilines/xlines/samples/tracecount, bin, text[0], tools.dt, tools.cube; canonical form "
-        "(kind, length, shapes, key order, values) on seismic_zfp.open(sgz) vs segyio.open(sgy) vs the Lean model of both")
+        "(kind, length, shapes, key order, values) on seismic_zfp.open(sgz) vs segyio.open(sgy) vs the Lean model of both"
+        "; K: Model/Emul sliceIndices/pyRange vs CPython; lineSlice vs accessors.SliceAccessor and vs segyio.Line.ranges (also outside the property's grammar); accessorSlice vs accessors.Accessor")
 
 
 def canon(v, vol_lookup=None):
